@@ -289,6 +289,9 @@ namespace
             }
          }
          for( const auto& x : v.foreign ) {
+            if( g.foreign[ x.oracle ] < 3 ) {
+               std::fprintf( g.res, "FOREIGN %llu %s %s %s\n", static_cast< unsigned long long >( i ), x.oracle.c_str(), x.key.c_str(), x.detail.c_str() );
+            }
             ++g.foreign[ x.oracle ];
          }
          if( !v.own.empty() ) {
